@@ -27,6 +27,7 @@ type C16Case struct {
 type c16gen struct {
 	t      *rapid.T
 	nb, ni int
+	nlit   int
 }
 
 func (g *c16gen) b() *m.Node { g.nb++; return m.Var(fmt.Sprintf("p%d", g.nb-1)) }
@@ -51,7 +52,20 @@ func (g *c16gen) intExpr(d int) *m.Node {
 // operand draws one and/or operand from a few shapes over fresh variables, so that
 // many operands have the same estimated cost while others differ.
 func (g *c16gen) operand(d int) *m.Node {
-	switch pickW(g.t, "shape", 5, 4, 2, 2, 2, 1, 1) {
+	switch pickW(g.t, "shape", 5, 4, 2, 2, 2, 1, 1, 1) {
+	case 7:
+		// a comparison of string literals whose TEXT is the name of a variable or operator used (and
+		// maybe priced) elsewhere: the operand mentions neither
+		pool := []string{"c_id", "variable", "operator", "and", ">", "=", "c_sum"}
+		for k := 0; k < g.nb && k < 6; k++ {
+			pool = append(pool, fmt.Sprintf("p%d", k))
+		}
+		for k := 0; k < g.ni && k < 3; k++ {
+			pool = append(pool, fmt.Sprintf("q%d", k))
+		}
+		a := rapid.SampledFrom(pool).Draw(g.t, "litname")
+		g.nlit++ // (the other literal is unique: operands are told apart by their text)
+		return m.Op(rapid.SampledFrom([]string{"=", "eq", "!="}).Draw(g.t, "litcmp"), m.Const(a), m.Const(fmt.Sprintf("u%d", g.nlit)))
 	case 0:
 		return g.b()
 	case 1:
@@ -281,8 +295,13 @@ func checkC16(c C16Case, r *Rec) *Violation {
 	for _, ce := range c.Costs {
 		costTag[ce.Name] = ce.C
 	}
+	// the way the option subset reaches the compiler rotates with the case: written into the map, a
+	// directive over a config that says the opposite (Reordering explicitly off in the config, switched
+	// on in the source, and vice versa), options set on a CopyConfig / ExtendConf copy of such a config
+	how := []int{HowMapAll, HowDirectiveOpp, HowCopySet, HowExtendSet, HowMapAll, HowOptionFn}[hash64(src)%6]
+	r.Class(fmt.Sprintf("options-expressed-in-way-%d", how))
 	compile := func(mask int, costs []CostEntry) (*CfgRun, *Violation) {
-		return runCfg("C16", u, src, Build{Mask: mask, How: HowMapAll, Costs: costs})
+		return runCfg("C16", u, src, Build{Mask: mask, How: how, Variant: int(hash64(src) % uint64(directiveVariants)), Costs: costs})
 	}
 	widest, equalGroups, crossTies := 0, 0, 0
 	for base := 0; base < 8; base++ {
